@@ -14,6 +14,12 @@ def chk(pid, text, note, design, technique='deductive verification: ast->VC gene
     }
 
 CHECKS = [
+    chk("C12", "Contracts on the real GDumpParser functions: every reported property becomes one Property whose readable/writable/"
+        "construct/construct-only flags equal the reported flag bits (for every flag word), with the reported name and default; "
+        "class/interface structures are linked to their type in both directions; instance structures give ctype and read-only "
+        "fields; plus the emission of property flags by the GIR writer.",
+        "Trusted: givc, ElementTree (findall), Type.create_from_gtype_name, Node.create_type. Signals, parent-chain fallback, boxed "
+        "pairing, virtual methods and error quarks are not yet under contract; gdump.c is out of scope.", "DESIGN.md section 4 C12"),
     chk("C03", "Contracts on the real identifier-level annotation functions: generic metadata (doc, Since/Deprecated/Stability, skip, "
         "foreign, constructor only on functions, method, set/get-property), block-name selection, and rename-to as a mutually "
         "consistent shadows/shadowed-by pair without multiple shadowing.",
